@@ -220,6 +220,9 @@ def cases_from(scripts, ctx):
                 continue
             for waitall in (True, False):
                 out.append({"kind": "recv", "n": sc["n"], "s": sc["s"], "B": B, "waitall": waitall})
+                # the same read on a socket without a timeout (a timeout cannot happen there, nor "would block")
+                if not any(b["k"] in ("timeout", "eagain", "ewouldblock") for b in sc["s"]):
+                    out.append({"kind": "recv", "n": sc["n"], "s": sc["s"], "B": B, "waitall": waitall, "blocking": True})
             if not any(b["k"] == "eof" for b in sc["s"]):
                 for blocking in (False, True):
                     if blocking and len(sc["s"]) > 1:
@@ -269,7 +272,8 @@ def run(ctx):
     for c, tr, v in zip(kept, traces, verdicts):
         seen_events.add(tr["outcome"])
         if v:
-            sig = "%s kind=%s mode=%s" % (v, c["kind"], "waitall" if c.get("waitall") else ("blocking" if c.get("blocking") else "loop"))
+            sig = "%s kind=%s mode=%s" % (v, c["kind"], ("waitall" if c.get("waitall") else "loop") + ("+blocking" if c.get("blocking") else "")
+                                          if c["kind"] == "recv" else ("blocking" if c.get("blocking") else "loop"))
             ctx.violation(sig, {"case": c, "trace": tr})
     for need in ("return", "closed", "timeout"):
         if need not in seen_events:
